@@ -34,6 +34,7 @@ type HistCfg struct {
 	GrowMeta   bool
 	KeepSmall  int // try to keep the number of live pages below this bound (0 = none)
 	WritePct   int // percentage of freshly allocated pages that are written at once (default 80)
+	ReadEvery  int    // read everything after every n-th transaction
 	MaxExtra   uint64 // bytes added to the max size (max size not a multiple of the page size)
 	FailCommitPct int // percentage of commits that hit an injected write/sync failure
 	OnTxEnd    func(e *fenv.Env, i int)
@@ -163,6 +164,10 @@ func RunTxBody(e *fenv.Env, rng *rand.Rand, c HistCfg) {
 // RunHistory runs a random history and returns its trace. Panics of the real
 // code are recorded as events (they are behaviour).
 func RunHistory(c HistCfg) (tr *core.Trace, env *fenv.Env) {
+	return runHistoryWith(c, nil, nil)
+}
+
+func runHistoryWith(c HistCfg, afterOpen func(e *fenv.Env), atEnd func(e *fenv.Env)) (tr *core.Trace, env *fenv.Env) {
 	rng := rand.New(rand.NewSource(c.Seed))
 	e := fenv.New(c.Name, c.options())
 	e.IO = !c.NoIO
@@ -170,13 +175,25 @@ func RunHistory(c HistCfg) (tr *core.Trace, env *fenv.Env) {
 	env = e
 	defer func() {
 		if p := recover(); p != nil {
-			e.Emit(core.Event{"ev": "Panic", "msg": fmt.Sprint(p)})
+			e.Emit(core.Event{"ev": "Panic", "msg": fmt.Sprint(p), "stack": core.ShortStack()})
 		}
 		tr.Events = e.Events()
 	}()
 	if err := e.Open(nil, 0); err != nil {
 		e.Emit(core.Event{"ev": "OpenFailed", "err": fenv.ErrKind(err), "msg": fmt.Sprintf("%+v", err)})
 		return
+	}
+	if afterOpen != nil {
+		afterOpen(e)
+	}
+	if atEnd != nil {
+		defer func() {
+			if p := recover(); p != nil {
+				e.Emit(core.Event{"ev": "Panic", "msg": fmt.Sprint(p), "stack": core.ShortStack()})
+			} else {
+				atEnd(e)
+			}
+		}()
 	}
 	for i := 0; i < c.Txs; i++ {
 		opts := txfile.TxOptions{WALLimit: c.WALLimit}
@@ -217,7 +234,7 @@ func RunHistory(c HistCfg) (tr *core.Trace, env *fenv.Env) {
 		} else {
 			e.Commit()
 		}
-		if c.ReadAll {
+		if c.ReadAll || (c.ReadEvery > 0 && i%c.ReadEvery == 0) {
 			e.ReadAll(fmt.Sprintf("ra%d", i))
 		}
 		if c.OnTxEnd != nil {
@@ -232,12 +249,14 @@ func RunHistory(c HistCfg) (tr *core.Trace, env *fenv.Env) {
 			}
 		}
 	}
-	e.Close()
+	if atEnd == nil {
+		e.Close()
+	}
 	return
 }
 
 // ---------------------------------------------------------------------------
-// attribution of a rejection to properties
+// reporting
 
 func lastEvName(rj core.Reject) string {
 	if rj.Event == nil {
@@ -246,105 +265,62 @@ func lastEvName(rj core.Reject) string {
 	return fmt.Sprint(rj.Event["ev"])
 }
 
-// RejectProps maps a rejection of TxTrace to the properties it is evidence against.
-func RejectProps(rj core.Reject, faults bool) []string {
-	ev := lastEvName(rj)
-	var props []string
-	add := func(p ...string) { props = append(props, p...) }
-	switch {
-	case strings.HasPrefix(rj.Kind, "invariant:"):
-		inv := strings.TrimPrefix(rj.Kind, "invariant:")
-		switch inv {
-		case "Ownership":
-			add("C04")
-		case "Partition", "MetaAccounting":
-			add("C11", "C04")
-		case "Conservation", "StatsTruthful", "ExtentBound":
-			add("C11")
-		case "HeaderAgrees":
-			add("C03")
-		case "IdleLockFree", "SharedMatchesReaders":
-			add("C09")
-		case "CrashSafe", "CrashSafeT":
-			add("C01")
-			if faults {
-				add("C08")
-			}
-		case "ReopenStable", "ReopenStableT":
-			add("C10")
-		default:
-			add("C03")
-		}
-		if ev == "Rollback" || (ev == "Commit" && fmt.Sprint(rj.Event["err"]) != "") {
-			add("C07")
-		}
-		if ev == "Reopen" {
-			add("C10")
-		}
-	default:
-		switch ev {
-		case "Alloc":
-			add("C04")
-		case "ReadW":
-			add("C03")
-		case "ReadR":
-			add("C03", "C02")
-		case "Rollback":
-			add("C07")
-		case "Commit":
-			if fmt.Sprint(rj.Event["err"]) != "" {
-				add("C07")
-				if faults {
-					add("C08")
-				}
-			} else {
-				add("C03")
-			}
-		case "Reopen", "ReopenFailed":
-			add("C10")
-		case "CommitSwitched", "BeginR", "EndR":
-			add("C02", "C09")
-		case "Recovered", "RecoverFailed":
-			add("C01")
-			if faults {
-				add("C08")
-			}
-		case "Panic", "Hang":
-			add("C03", "C04", "C07", "C08", "C10", "C11", "C01", "C02", "C14")
-		default:
-			add("C03")
-		}
-	}
-	if faults {
-		add("C08")
-	}
-	return props
+// reportOpts says which recorded deviations count for the running check.
+type reportOpts struct {
+	Mine    []string                    // properties whose deviations are violations of the running check
+	Context func(rj core.Reject) string // refinement of the signature (fault runs)
 }
 
-// ReportRejects turns rejections into violations of the running check's
-// property, or into machinery failures if they only concern other properties.
-func ReportRejects(r *core.Run, rejects []core.Reject, faults bool) {
+// Report turns the outcome of a TxTrace judgement into violations: deviations
+// recorded for the properties in o.Mine, and traces the specification could
+// not follow at all (panic, hang, failing reopen).
+func Report(r *core.Run, rejects []core.Reject, o reportOpts) {
+	mine := map[string]bool{r.Prop: true}
+	for _, p := range o.Mine {
+		mine[p] = true
+	}
+	others := map[string]int{}
+	for _, d := range r.TakeDevs() {
+		name := strings.TrimPrefix(d.Kind, "dev:")
+		if !mine[d.Prop] {
+			others[d.Prop+":"+name]++
+			continue
+		}
+		sig := fmt.Sprintf("tx:%s:%s", name, lastEvName(d))
+		if o.Context != nil {
+			sig += o.Context(d)
+		}
+		path := r.SaveReplay(safeName(d.Trace.Name)+".ndjson", d.Trace.Serialize())
+		r.Violate(core.Violation{Signature: sig, What: d.Describe() + fmt.Sprintf(" [%v]", d.Trace.Meta), Replay: path})
+	}
+	if len(others) > 0 {
+		r.Extra["deviations_recorded_for_other_properties"] = others
+	}
 	for _, rj := range rejects {
-		props := RejectProps(rj, faults)
-		mine := false
-		for _, p := range props {
-			if p == r.Prop {
-				mine = true
+		ev := lastEvName(rj)
+		sig := fmt.Sprintf("tx:%s:%s", rj.Kind, ev)
+		if o.Context != nil {
+			sig += o.Context(rj)
+		}
+		path := r.SaveReplay(safeName(rj.Trace.Name)+".ndjson", rj.Trace.Serialize())
+		what := rj.Describe() + fmt.Sprintf(" [%v]", rj.Trace.Meta)
+		switch ev {
+		case "Panic", "Hang":
+			r.Violate(core.Violation{Signature: sig, What: what, Replay: path})
+		case "ReopenFailed", "OpenFailed":
+			if mine["C10"] || mine["C07"] || mine["C08"] || mine["C14"] || mine["C01"] {
+				r.Violate(core.Violation{Signature: sig, What: what, Replay: path})
+			} else {
+				r.Break("trace could not be followed (concerns another property): %s (replay %s)", what, path)
 			}
-		}
-		sig := fmt.Sprintf("txtrace:%s:%s", rj.Kind, lastEvName(rj))
-		path := r.SaveReplay(rj.Trace.Name+".ndjson", rj.Trace.Serialize())
-		what := rj.Describe()
-		if rj.Detail != "" {
-			what += "\n    " + strings.ReplaceAll(firstLines(rj.Detail, 12), "\n", "\n    ")
-		}
-		if mine {
-			r.Violate(core.Violation{Signature: sig, What: what + fmt.Sprintf(" [%v]", rj.Trace.Meta), Replay: path})
-		} else {
-			r.Break("trace rejected for a reason that concerns %v, not %s; the rest of that trace was not examined: %s (replay %s)",
-				props, r.Prop, what, path)
+		default:
+			r.Break("trace could not be followed by TxTrace.tla: %s (replay %s)", what, path)
 		}
 	}
+}
+
+func safeName(s string) string {
+	return strings.NewReplacer("/", "_", " ", "_", "=", "-").Replace(s)
 }
 
 func firstLines(s string, n int) string {
